@@ -18,8 +18,10 @@ DRIVERS = {
                "c01/server_test.go", "^TestVerifC01Server$"),
 }
 # which driver serves which api of the integration table
-API_DRIVER = {"http": "http", "sql_exec": "sql", "sql_query": "sql", "sql_prepare": "sql", "sql_transact": "sql",
-              "redis": "redis", "grpc_codes": "codes", "grpc_client": "client", "grpc_unary": "server", "grpc_stream": "server"}
+SQL_OPS = ("sql_exec", "sql_query", "sql_prepare", "sql_transact")
+SQL_FLAVOURS = ("", "@mysql", "@custom")   # plain | withMySQLAcceptable (as NewMySQL) | user accept option accepting nothing extra
+API_DRIVER = {"http": "http", "redis": "redis", "grpc_codes": "codes", "grpc_client": "client", "grpc_unary": "server", "grpc_stream": "server"}
+API_DRIVER.update({op + fl: "sql" for op in SQL_OPS for fl in SQL_FLAVOURS})
 
 META = dict(
     text="Model-based replay with a virtual clock and a forced coin: spec/Breaker.tla states the property (window of "
@@ -46,7 +48,10 @@ META = dict(
          "are those the Go scheduler produced, not all. The ring mechanism of the rolling window (offset/lastTime) is "
          "not modelled here (RollingWindowImpl belongs to C09). "
          "A promise that is neither accepted nor rejected, scan errors of sqlx and the MySQL duplicate-"
-         "entry exemption are outside the statement and not generated. Bounds: <= 4-5 macro-steps exhaustively, "
+         "entry error (benign only by option, not listed by the statement: either classification is accepted, so it "
+         "is not generated) are outside the statement. The sqlx table runs every operation x outcome on three "
+         "connection flavours: plain, with the MySQL accept option (built in-package as NewMySQL does), with a "
+         "user accept option that accepts nothing extra - the benign outcomes must be benign on all of them. Bounds: <= 4-5 macro-steps exhaustively, "
          "bursts of 1..20 calls, 2 names; simulations up to 14 macro-steps (250 / 1050 behaviours).",
     technique="TLA+ spec (Breaker) model-checked with TLC + TLC-generated behaviours replayed on the real breaker and "
               "its integrations (virtual clock, forced coin) + TLC trace validation of concurrent histories (BreakerTrace)",
@@ -79,8 +84,9 @@ def integ_kinds(ctx):
     ks += [kd("http", str(c), c) for c in codes] + [kd("http", "implicit", 200)]
     for api in ("grpc_codes", "grpc_client", "grpc_unary", "grpc_stream"):
         ks += [kd(api, nm, i) for i, nm in enumerate(GRPC)]
-    for api in ("sql_exec", "sql_query", "sql_prepare", "sql_transact"):
-        ks += [kd(api, oc) for oc in SQL_OUTCOMES]
+    for op in SQL_OPS:
+        for fl in SQL_FLAVOURS:
+            ks += [kd(op + fl, oc) for oc in SQL_OUTCOMES]
     ks += [kd("redis", oc) for oc in REDIS_OUTCOMES]
     return ks
 
